@@ -73,6 +73,9 @@ func init() {
 			consistencyHammer(r, "[C02]") // incl. another login's authorization code presented under an attacker's own session while the victim's callback is in progress
 		}
 		if r.unknownViolations() == 0 {
+			c18LoaderTag(r, "[C02]") // two discovering filters whose configuration URIs differ after /.well-known/ or only in the query: each uses its OWN provider's endpoints and keys
+		}
+		if r.unknownViolations() == 0 {
 			ownKeySets(r, "[C02]") // the real key provider shared by several filters with different key sets
 		}
 		if r.unknownViolations() > 0 {
@@ -490,6 +493,7 @@ func overlappingLogins(r *Run, prop string) {
 // proxies and logs) is replayed WITHOUT the session cookie - by an attacker, or by a browser that lost the cookie. The
 // service must treat it as any other unauthenticated request: no exchange, no session id of the pending login.
 func cookielessCallback(r *Run, prop string) {
+	systemCookielessCallback(r, "["+prop+"]")
 	for _, store := range []string{"mem", "redis"} {
 		if r.unknownViolations() > 0 {
 			return
